@@ -2,6 +2,7 @@ package rules
 
 import (
 	"fmt"
+	"go/types"
 	"strings"
 
 	"golang.org/x/tools/go/ssa"
@@ -302,4 +303,40 @@ func checkParamFilter(p *engine.Prog, r *engine.Report) {
 		}
 	}
 	r.Check(len(probs) == 0 && nFn > 0, "R2.8-param-labels", "matching label names against the job's params", fmt.Sprintf("%d functions of pkg/discovery", nFn), "label names are compared as they are, or with exactly the prefix __param_ removed", strings.Join(append(probs, how...), "; "))
+}
+
+// checkRequestURL is R2.9: the scraper requests exactly the URL it was given (the proxy rebuilt it from the routing
+// parameters): no field of a url.URL is written in pkg/scrape. Dropping a "default" port, normalising the host or the
+// path there makes the request differ from the one plain Prometheus sends for the same target.
+func checkRequestURL(p *engine.Prog, r *engine.Report) {
+	var probs []string
+	n := 0
+	for _, fn := range p.Funcs {
+		if !engine.InPkg(fn, pkgScrape) {
+			continue
+		}
+		n++
+		for _, in := range allInstrs(fn) {
+			st, ok := in.(*ssa.Store)
+			if !ok {
+				continue
+			}
+			fa, ok := st.Addr.(*ssa.FieldAddr)
+			if !ok {
+				continue
+			}
+			t := fa.X.Type()
+			if pt, ok := t.Underlying().(*types.Pointer); ok {
+				t = pt.Elem()
+			}
+			if t.String() != "net/url.URL" {
+				continue
+			}
+			if al, ok := fa.X.(*ssa.Alloc); ok && strings.Contains(al.Comment, "complit") {
+				continue // a URL value built from scratch (the proxy URL of a job)
+			}
+			probs = append(probs, "URL."+engine.FieldOf(fa).Name()+" is rewritten in "+engine.FuncName(fn)+" ("+p.Rel(st.Pos())+")")
+		}
+	}
+	r.Check(len(probs) == 0 && n > 0, "R2.9-request-url", "writes to url.URL fields in pkg/scrape", fmt.Sprintf("%d functions of pkg/scrape", n), "none: the target is requested at the URL the proxy rebuilt", strings.Join(probs, "; "))
 }
